@@ -26,6 +26,7 @@ MODULES = [
     "chp",
     "nodal",
     "intervals",
+    "slp",
 ]
 
 
